@@ -267,6 +267,15 @@ pub fn run(tier: Tier) -> i32 {
                 let m = c.len() - 4;
                 c[m] ^= 0x33;
                 al.push(("well-formed (3,0,2) corrupt".into(), RawOp::Dec(Hex(c))));
+                // the same stream with an illegal properties byte and an untouched payload (a decoder that remembers anything
+                // about a refused byte - or about the last accepted one - across reset() decodes it under the old properties)
+                for (v, what) in [(225u8, "225"), (45u8, "45 (lc 0, lp 5)")] {
+                    if let Some(po) = w.layout.first().and_then(|l| l.props_off) {
+                        let mut b = w.bytes.clone();
+                        b[po] = v;
+                        al.push((format!("well-formed (3,0,2) with properties byte := {}", what), RawOp::Dec(Hex(b))));
+                    }
+                }
             }
         }
         {
